@@ -32,6 +32,7 @@ import (
 
 	"src.elv.sh/pkg/daemon"
 	"src.elv.sh/pkg/daemon/daemondefs"
+	"src.elv.sh/pkg/rpc"
 	"src.elv.sh/pkg/store"
 	"src.elv.sh/pkg/store/storedefs"
 	. "verifharness/coqfmt"
@@ -235,6 +236,8 @@ func (r result) String() string {
 		return "[" + strings.Join(l, " ") + "]"
 	case "err":
 		return "error: " + r.Err
+	case "transport":
+		return "transport error (pending): " + r.Err
 	}
 	return r.Kind
 }
@@ -286,6 +289,12 @@ func normDirs(d []storedefs.Dir) []storedefs.Dir {
 }
 
 func errResult(err error) result {
+	// an error returned by the service method arrives as rpc.ServerError;
+	// anything else (connection lost, daemon unreachable) is a transport error:
+	// the call is recorded as pending, no result is claimed for it
+	if _, ok := err.(rpc.ServerError); !ok {
+		return result{Kind: "transport", Err: err.Error()}
+	}
 	// errors cross net/rpc as strings
 	if err.Error() == storedefs.ErrNoMatchingCmd.Error() {
 		return result{Kind: "nomatch"}
@@ -485,6 +494,13 @@ func linearize(calls []call, budget int) (order []int, best []int, exhausted boo
 	n := len(calls)
 	done := make([]bool, n)
 	memo := map[string]bool{}
+	pending := func(c call) bool { return c.Res.Kind == "transport" }
+	need := 0 // calls that returned: all of them must be placed; pending ones may be
+	for _, c := range calls {
+		if !pending(c) {
+			need++
+		}
+	}
 	var cur []int
 	steps := 0
 	var dfs func(m *mstate, left int) bool
@@ -511,7 +527,7 @@ func linearize(calls []call, budget int) (order []int, best []int, exhausted boo
 		// minimal pending calls: invoked before every pending call's response
 		minRet := int64(math.MaxInt64)
 		for i, c := range calls {
-			if !done[i] && c.Ret < minRet {
+			if !done[i] && !pending(c) && c.Ret < minRet {
 				minRet = c.Ret
 			}
 		}
@@ -520,7 +536,10 @@ func linearize(calls []call, budget int) (order []int, best []int, exhausted boo
 				continue
 			}
 			m2, r := m.step(c.Op)
-			if !r.equal(c.Res) {
+			dec := 1
+			if pending(c) {
+				dec = 0 // may have taken effect, with whatever result
+			} else if !r.equal(c.Res) {
 				continue
 			}
 			done[i] = true
@@ -528,7 +547,7 @@ func linearize(calls []call, budget int) (order []int, best []int, exhausted boo
 			if len(cur) > len(best) {
 				best = append([]int(nil), cur...)
 			}
-			if dfs(m2, left-1) {
+			if dfs(m2, left-dec) {
 				return true
 			}
 			cur = cur[:len(cur)-1]
@@ -540,7 +559,7 @@ func linearize(calls []call, budget int) (order []int, best []int, exhausted boo
 		memo[key] = true
 		return false
 	}
-	if dfs(&mstate{dirs: map[string]float64{}}, n) {
+	if dfs(&mstate{dirs: map[string]float64{}}, need) {
 		return append([]int(nil), cur...), best, false
 	}
 	return nil, best, exhausted
@@ -605,6 +624,7 @@ type desc struct {
 	Total     int      `json:"calls_recorded"`
 	Calls     []string `json:"calls"` // judged calls: client, op, result, [inv,ret] in ns
 	Projected bool     `json:"projected"`
+	Pending   int      `json:"calls_with_transport_error"`
 	Anomalies []string `json:"real_time_anomalies,omitempty"`
 	Witness   string   `json:"witness"`
 	Overlaps  int      `json:"overlapping_pairs"`
@@ -623,12 +643,16 @@ type cfg struct {
 	procs         int
 	disk          bool // database under c.Scratch (fsync-bound commits) instead of /dev/shm
 	probe         bool
+	restart       bool // the daemon is stopped and started again between two phases (client retry on ErrShutdown)
 	nWriters      int // probe: the first nWriters goroutines are writers
 	adds          int // probe: AddCmd calls per writer
 	readerCap     int // probe: maximal loop iterations per reader
 }
 
 func (k cfg) class() string {
+	if k.restart {
+		return "restart"
+	}
 	if k.probe {
 		if k.disk {
 			return "probe-disk"
@@ -814,17 +838,23 @@ func oneRun(c *reg.Ctx, k cfg) {
 	old := runtime.GOMAXPROCS(k.procs)
 	defer runtime.GOMAXPROCS(old)
 
-	ready := make(chan struct{})
-	sig := make(chan os.Signal, 1)
-	served := make(chan int, 1)
-	go func() { served <- daemon.Serve(sock, db, daemon.ServeOpts{Ready: ready, Signals: sig}) }()
-	select {
-	case <-ready:
-	case code := <-served:
-		panic(fmt.Sprintf("daemon.Serve exited early with %d", code))
-	case <-time.After(60 * time.Second):
-		panic("daemon.Serve not ready after 60 s")
+	startDaemon := func() (chan os.Signal, chan int) {
+		ready := make(chan struct{})
+		sig := make(chan os.Signal, 1)
+		served := make(chan int, 1)
+		go func() { served <- daemon.Serve(sock, db, daemon.ServeOpts{Ready: ready, Signals: sig}) }()
+		select {
+		case <-ready:
+		case code := <-served:
+			panic(fmt.Sprintf("daemon.Serve exited early with %d", code))
+		case <-time.After(60 * time.Second):
+			panic("daemon.Serve not ready after 60 s")
+		}
+		return sig, served
 	}
+	sig, served := startDaemon()
+	var phase1 sync.WaitGroup      // restart runs: every goroutine has finished its first half
+	resume := make(chan struct{}) // ... and may go on
 
 	t0 := time.Now()
 	recs := make([][]call, nG)
@@ -851,7 +881,11 @@ func oneRun(c *reg.Ctx, k cfg) {
 		}
 		for g := range progs {
 			progs[g] = func(g int, cl daemondefs.Client) {
-				for _, o := range plans[g] {
+				for i, o := range plans[g] {
+					if k.restart && i == len(plans[g])/2 {
+						phase1.Done()
+						<-resume
+					}
 					doCall(g, cl, o)
 				}
 			}
@@ -931,7 +965,27 @@ func oneRun(c *reg.Ctx, k cfg) {
 			launch(g, shared)
 		}
 	}
+	if k.restart {
+		phase1.Add(nG)
+	}
 	close(start)
+	if k.restart {
+		// no call is in flight: stop the daemon (it closes every connection and
+		// removes the socket), give the clients' readers time to see the end of
+		// their connections, start a new daemon on the same socket and database.
+		// The first call of every client in the second phase then finds its codec
+		// shut down (ErrShutdown) and goes through client.call's retry.
+		phase1.Wait()
+		sig <- os.Interrupt
+		select {
+		case <-served:
+		case <-time.After(30 * time.Second):
+			panic("daemon.Serve did not stop on interrupt")
+		}
+		time.Sleep(200 * time.Millisecond)
+		sig, served = startDaemon()
+		close(resume)
+	}
 	finished := make(chan struct{})
 	go func() { wg.Wait(); close(finished) }()
 	select {
@@ -973,7 +1027,7 @@ func oneRun(c *reg.Ctx, k cfg) {
 	d.Anomalies = texts
 	budget := 2_000_000
 	if len(calls) > longRun {
-		calls = project(rand.New(rand.NewSource(c.Rand.Int63())), calls, flagged, 160)
+		calls = project(rand.New(rand.NewSource(c.Rand.Int63())), calls, flagged, 100)
 		d.Projected = true
 		budget = 300_000
 	}
@@ -981,7 +1035,12 @@ func oneRun(c *reg.Ctx, k cfg) {
 	resetIntern()
 	items := make([]string, len(calls))
 	for i, k := range calls {
-		items[i] = App("kc", N(uint64(k.Client)), k.Op.coq(), N(uint64(k.Inv)), k.Res.coq(), N(uint64(k.Ret)))
+		if k.Res.Kind == "transport" {
+			items[i] = App("kp", N(uint64(k.Client)), k.Op.coq(), N(uint64(k.Inv)))
+			d.Pending++
+		} else {
+			items[i] = App("kc", N(uint64(k.Client)), k.Op.coq(), N(uint64(k.Inv)), k.Res.coq(), N(uint64(k.Ret)))
+		}
 		d.Calls = append(d.Calls, fmt.Sprintf("#%d c%d %s = %s [%d,%d]", i, k.Client, k.Op, k.Res, k.Inv, k.Ret))
 	}
 	for i := range calls {
@@ -1041,7 +1100,7 @@ func run(c *reg.Ctx) {
 			} else {
 				k.nSep = k.nWriters + nReaders
 			}
-			k.adds, k.readerCap = 150+c.Rand.Intn(100), 300
+			k.adds, k.readerCap = 100+c.Rand.Intn(50), 300
 			if k.disk {
 				k.adds = 40 + c.Rand.Intn(30)
 			}
@@ -1066,6 +1125,12 @@ func run(c *reg.Ctx) {
 			nSep = nG - nShared
 		}
 		total := 120 + c.Rand.Intn(81)
+		if i%15 == 2 {
+			// restart run: separate clients only (a shared client's reconnect is
+			// unsynchronised, outside the property's quantifier)
+			oneRun(c, cfg{nSep: nG, perClient: total/nG + 1, procs: procs, restart: true})
+			continue
+		}
 		oneRun(c, cfg{nSep: nSep, nShared: nShared, perClient: total/nG + 1, procs: procs, disk: i%10 == 0})
 	}
 }
